@@ -533,7 +533,7 @@ func (a *App) printMsg(msg *mangos.Message) {
 		_, _ = bw.Write(msg.Body)
 	case "ascii":
 		for i := 0; i < len(msg.Body); i++ {
-			if strconv.IsPrint(rune(msg.Body[i])) {
+			if msg.Body[i] < 0x80 && strconv.IsPrint(rune(msg.Body[i])) {
 				_ = bw.WriteByte(msg.Body[i])
 			} else {
 				_ = bw.WriteByte('.')
